@@ -2,6 +2,7 @@
 //! C20 — compaction converges and levels only move up (second DEF in this file).
 
 use super::common::*;
+use super::ingest::{diff_multiset, multiset};
 use super::compaction::*;
 use crate::core::coord::PropDef;
 use crate::core::run::{RunSpec, ScenFut};
@@ -71,7 +72,7 @@ fn draw_cfg() -> CompactorConfig {
     }
 }
 
-fn scen_c03(_spec: RunSpec) -> ScenFut {
+fn scen_c03(spec: RunSpec) -> ScenFut {
     Box::pin(async move {
         store::keep_data_payloads(true);
         let inner = Arc::new(InMemory::new());
@@ -133,6 +134,10 @@ fn scen_c03(_spec: RunSpec) -> ScenFut {
         };
         sim::set_cfg(|c| c.enabled = false);
         let seeds = seed_dataset(&inner, setup_meta.as_ref(), n_chunks, buckets, &levels, base, 2).await;
+        // a quarter of the runs hand every hash table built from here on an unlucky-but-legal key
+        if crate::core::run::mix2(spec.seed, 5) % 4 == 0 {
+            sim::set_adversarial_hash(true);
+        }
         sim::set_cfg(|c| c.enabled = true);
         let versions_before = store::versions("catalog.json").len();
         sim::log(format!(
@@ -270,6 +275,20 @@ async fn check_c03(inner: &Arc<InMemory>, seeds: &[SeedChunk], original: &BTreeM
     }
     if !foreign.is_empty() {
         sim::violation("C03/foreign-rows", format!("{} rows that were never stored are reachable", foreign.len()));
+    }
+    // (ii') the reachable rows are the stored rows value for value (floats bit for bit), not only id for id
+    if lost.is_empty() && dups.is_empty() && foreign.is_empty() {
+        let want = multiset(seeds.iter().flat_map(|s| s.rows.iter().cloned()));
+        let got = multiset(final_listed.iter().filter(|p| files.contains(*p)).flat_map(|p| idx.rows.get(p).cloned().unwrap_or_default()));
+        if want != got {
+            let (m, e) = diff_multiset(&want, &got);
+            let norm0 = |v: &String| v.replace("f:8000000000000000", "f:0000000000000000");
+            let zero_only = multiset(m.iter().map(norm0)) == multiset(e.iter().map(norm0));
+            sim::violation(
+                if zero_only { "C03/row-content-altered/sign-of-zero" } else { "C03/row-content-altered" },
+                format!("after all compactors stopped every row id is reachable once, but {} rows differ in content: stored e.g. {:?}, now e.g. {:?}", m.len(), m.iter().take(2).collect::<Vec<_>>(), e.iter().take(2).collect::<Vec<_>>()),
+            );
+        }
     }
     let puts = events.iter().filter(|e| e.op == "PUT" && e.ok && e.path.contains("/compacted/")).count();
     sim::probe_n("merged-files-uploaded", puts as u64);
